@@ -49,13 +49,26 @@ func c04Log(r *rand.Rand, style int) []Cmd {
 		return string(b)
 	}
 	n := []int{12, 40, 150, 8}[style]
+	bigAt := -1
+	if style == 3 {
+		bigAt = r.Intn(n) // every log of this style holds at least one value larger than the read buffer
+	}
 	var p []Cmd
 	for i := 0; i < n; i++ {
-		switch x := r.Intn(20); {
+		x := r.Intn(20)
+		if i == bigAt {
+			x = 5
+		}
+		switch {
 		case x < 5:
 			p = append(p, Cmd{Args: []string{"SET", pick(r, g.keys), pick(r, g.freeIDs), "STRING", "b" + bin(1+r.Intn(40))}})
 		case x < 6 && style == 3:
-			p = append(p, Cmd{Args: []string{"SET", "k1", "big" + fmt.Sprint(r.Intn(2)), "STRING", "B" + bin(66000+r.Intn(70000))}})
+			v := "B" + bin(66000+r.Intn(70000))
+			if r.Intn(2) == 0 {
+				// a long run of NUL bytes inside a value: whole read blocks of the loader are zero
+				v = "Z" + bin(r.Intn(300)) + strings.Repeat("\x00", 132000+r.Intn(140000)) + bin(1+r.Intn(300))
+			}
+			p = append(p, Cmd{Args: []string{"SET", "k1", "big" + fmt.Sprint(r.Intn(2)), "STRING", v}})
 		case x < 8:
 			p = append(p, hookCmd(r, g))
 		default:
